@@ -1,6 +1,5 @@
 //! C18 — word matching is a longest common subsequence; edited words are its complement.
 use crate::engine::*;
-use crate::ensure;
 use crate::model;
 use proptest::prelude::*;
 use proptest::sample::select;
